@@ -39,7 +39,8 @@ def trades_of(t):
     out = []
     for node, q, price, _when in _spy["log"]:
         if node.root is t.root:
-            out.append((node.full_name, node.parent.full_name, node.name, q, price, float(node.multiplier)))
+            # (the multiplier the driver asked for, not the node's own attribute)
+            out.append((node.full_name, node.parent.full_name, node.name, q, price, float(t.mult.get(node.name, 1))))
     return out
 
 
@@ -107,6 +108,17 @@ def pre(t, op):
     return st
 
 
+def _table_carry(t, tick, pos, i):
+    def tab(name):
+        fr = t.kw.get(name)
+        if fr is None or tick not in fr.columns:
+            return 0.0
+        return float(fr[tick].values[i])
+
+    hc = pos * tab("cost_long") if pos > 0 else (-pos * tab("cost_short") if pos < 0 else 0.0)
+    return pos * tab("coupons") - hc
+
+
 def post(t, op, st, want):
     """want: set of property ids among {'C02','C03','C07'}."""
     out = []
@@ -129,7 +141,9 @@ def post(t, op, st, want):
                 if a["position"] != 0.0:
                     mtm += a["position"] * (b["price"] - a["price"]) * a["mult"]
                 if is_next and "coupon" in a:
-                    carry += a["coupon"] - a["holding_cost"]
+                    # coupon less holding cost of the date being left, from the driver's own tables
+                    # (not the node's read-outs) on the end-of-date position
+                    carry += _table_carry(t, a["name"], a["position"], st["i"])
         friction = sum(c["fee"] + c["friction"] for c in costs)
         exp = s0[root]["value"] + mtm + carry + sum(a[2] for a in adj) - friction
         if not ref.near(s1[root]["value"], exp, scale):
@@ -223,7 +237,16 @@ def index_rule(t, s1, scale):
     else:
         p_prev, v_prev = 100.0, 0.0
     base = v_prev + tally
-    v_now = s1[root_name]["value"]
+    # the value the index must be computed on: the balance sheet (cash of every strategy + marked
+    # positions), not the node's own read-out
+    v_now = 0.0
+    for name in s1["__order__"]:
+        n = s1[name]
+        if n["kind"] == "X":
+            if n["position"] != 0.0:
+                v_now += n["position"] * n["price"] * n["mult"]
+        else:
+            v_now += n["capital"]
     if abs(base) < 1e-16:
         exp = p_prev if abs(v_now) < 1e-16 else None
     else:
@@ -277,7 +300,7 @@ def per_date(t, want, label, i, scale):
                 p1, p0 = val(cn, "prices", i), val(cn, "prices", i - 1)
                 pos0 = val(cn, "positions", i - 1)
                 if pos0 != 0.0:
-                    mtm += pos0 * (p1 - p0) * float(c.multiplier)
+                    mtm += pos0 * (p1 - p0) * float(t.mult.get(c.name, 1))
                 if "coupons" in h[cn]:
                     carry += val(cn, "coupons", i - 1) - val(cn, "holding_costs", i - 1)
             if "bidoffers_paid" in h[cn]:
